@@ -14,6 +14,7 @@ func init() {
 			"over loopback SSH against the stub cloud with a PRNG fault schedule (per-VM slow boot / never boots / broken-after / crunch-run missing / reports broken / crash rate / arv-mount deadlock / unkillable; destroy error rate 0-40%, create and list rate limits, " +
 			"quota error in thorough; create failures = rate-limit or plain errors, in particular for the first Create of an instance type that only one or two containers need, some of them arriving after the restart), " +
 			"compound VM fault 'reports broken while a container runs on it, then stops answering, crunch-run processes mostly die without finalizing', temporary outages with lingering destroy failures, operator kills of busy instances, " +
+			"instances whose commands HANG for 80-150 ms (longer than SyncInterval) before failing (never answering, or dying while busy), slow/failing first queue fetch after a restart, " +
 			"VMs slow over SSH, queue poll interval 5/20/50 ms, API changes while containers run, operator hold/drain, and zero or one dispatcher kill+restart (0-2 in thorough). After the planned actions fired the fault schedule stops injecting (new VMs healthy, no injected cloud errors) and the logical clock " +
 			"(queue polls) runs: a violation is K polls (15 s worth of polls: 3000 at 5 ms, 300 at 50 ms; 16000 when a quota error was injected, because the pool's quota back-off is a 60 s constant) without any container becoming final (L1/L2) or, once all are final, without the instance list shrinking (L3/L4); " +
 			"non-trivial = at least one crunch-run start; distinct = (size, restarts, destroy error rate, set of VM fault kinds that occurred)",
